@@ -1,8 +1,10 @@
 package main
 
 import (
+	"fmt"
 	"go/ast"
 	"go/types"
+	"strings"
 )
 
 // checkAtCall raises the caller-side assertions ("at-call <callee> requires <expr>") attached to calls of fn in the
@@ -31,6 +33,12 @@ func (c *Ctx) checkAtCall(st *State, x *ast.CallExpr, fn *types.Func) {
 			env := c.newEnv(st, c.entry)
 			env.scopePos = x.Pos()
 			c.bindParamsCurrent(env)
+			if strings.Contains(cl.Text, "arg") {
+				// arg0, arg1, ...: the call's argument values (pure argument expressions are evaluated a second time)
+				for i, a := range x.Args {
+					env.vars[fmt.Sprintf("arg%d", i)] = c.eval(st, a)
+				}
+			}
 			c.goalMode++
 			t := env.boolTerm(cl.Expr)
 			c.goalMode--
